@@ -90,7 +90,11 @@ CommandOutcome(G, r, ev) ==
      /\ (ev.cmd.c = "resume" => r.exec = "continue")
      /\ (ev.cmd.c = "quit" => r.exec = "quit")
      /\ (ev.cmd.c \notin {"resume", "quit"} => r.exec = "none" /\ r.halt)
-GStepOk(G, r, ev) == Untouched(G, r.G, ev) /\ FreshOnReuse(G, r.G, ev) /\ CloseOnDestroy(G, r.G, ev)
+\* whether the program is halted afterwards is what the step says: a hit or a command decides it, the destruction of a
+\* connection neither halts the program nor lets it go
+HaltedConsistent(G, r, ev) ==
+  IF ev.e = "destroy" THEN r.G.halted = G.halted /\ ~r.halt ELSE r.G.halted = r.halt
+GStepOk(G, r, ev) == HaltedConsistent(G, r, ev) /\ Untouched(G, r.G, ev) /\ FreshOnReuse(G, r.G, ev) /\ CloseOnDestroy(G, r.G, ev)
                      /\ HaltIff(G, r, ev) /\ CommandOutcome(G, r, ev) /\ HistoryAppendOnly(G.S, r.G.S)
                      /\ NoResurrectionStep(G.S, r.G.S)
 =============================================================================
